@@ -52,6 +52,10 @@ class Cong:
             if isinstance(v, (ast.Tuple, ast.List)) and len(v.elts) == len(t.elts):
                 for a, b in zip(t.elts, v.elts):
                     self._bind(a, b)
+            elif isinstance(v, ast.IfExp) and all(isinstance(x, (ast.Tuple, ast.List)) and len(x.elts) == len(t.elts) for x in (v.body, v.orelse)):
+                # `a, b = (2, 1) if c else (1, 2)`: element-wise conditional
+                for i, a in enumerate(t.elts):
+                    self._bind(a, ast.IfExp(test=v.test, body=v.body.elts[i], orelse=v.orelse.elts[i]))  # type: ignore[attr-defined]
             else:
                 for a in t.elts:
                     if isinstance(a, ast.Name):
@@ -90,6 +94,11 @@ class Cong:
                 start, step = self.ev(a[0]), self.ev(a[2])
                 if step == frozenset({0}) and start is not TOP:
                     return start
+                if step is not TOP:
+                    return frozenset(range(self.k))  # a stride that is not a multiple of the record size visits every field
+                return TOP
+            if len(a) in (1, 2):
+                return frozenset(range(self.k))  # step 1: every residue
             return TOP
         return TOP
 
@@ -173,7 +182,11 @@ def rule_rs_readers(prog: Program, report: Report, fields: tuple[str, ...] = ("r
                 if field == "mirror":
                     _check_mirror(report, fn, s, cg, k)
                     continue
-                if res is TOP or len(res) == 0:
+                if res is TOP:
+                    # the index is built in a way the residue evaluator does not model: unknown, not wrong
+                    report.errors.append(f"RS-readers: {fn.key}: the residue of `{src(idx)}` in `{text}` modulo {k} cannot be determined (unrecognised index form; found 0 time(s) among the modelled ones)")
+                    continue
+                if len(res) == 0 or len(res) == k:
                     report.violate(
                         "RS-readers", fn, s, f"`{field}` read at an offset of unknown residue",
                         f"`{text}`: the index `{src(idx)}` has no determinable residue modulo the record stride {k}, so the read does not address a fixed field of a record (loop variables get their residue from range(start, stop, {k}) / `i = 0 ... i += {k}`)",
